@@ -7,6 +7,7 @@ mod export;
 mod progs;
 mod c08;
 mod c09;
+mod c10;
 mod c13;
 mod c15;
 mod c16;
@@ -87,6 +88,16 @@ fn main() {
                 }
             }
         }
+        "decode" => {
+            // mvh decode <kind> <hex>   (probe; panics are not caught so that the message is visible)
+            std::panic::set_hook(Box::new(|i| eprintln!("PANIC: {}", i)));
+            let bytes: Vec<u8> = (0..args[3].len() / 2).map(|i| u8::from_str_radix(&args[3][2 * i..2 * i + 2], 16).unwrap()).collect();
+            match args[2].as_str() {
+                "program" => println!("{:?}", assembly::ast::ProgramAst::from_bytes(&bytes).map(|_| "ok")),
+                "module" => println!("{:?}", assembly::ast::ModuleAst::from_bytes(&bytes).map(|_| "ok")),
+                _ => println!("unknown kind"),
+            }
+        }
         "export" => {
             export::export_all(&args[2]);
         }
@@ -99,6 +110,8 @@ fn main() {
             match prop {
                 "C08" => c08::generate(&mut em, seed, thorough),
                 "C09" => c09::generate(&mut em, seed, thorough),
+                "C10" => c10::generate_c10(&mut em, seed, thorough),
+                "C19" => c10::generate_c19(&mut em, seed, thorough),
                 "C13" => c13::generate(&mut em, seed, thorough),
                 "C15" => c15::generate(&mut em, seed, thorough),
                 "C16" => c16::generate(&mut em, seed, thorough),
